@@ -51,7 +51,7 @@ BadFieldsCp(e) ==
        [] f = "idc" -> o.idc # Derived(sg, "Id")
        [] f = "ff"  -> o.ff  # Derived(sg, "Ff")
        [] f = "ffc" -> o.ffc # Derived(sg, "Ff")
-       [] f = "reg" -> o.reg # RuleOf(c)
+       [] f = "reg" -> o.reg # (IF RuleOf(c) = "" THEN "" ELSE "applies")
        [] f = "regdom" -> (RuleOf(c) # "") # (Derived(sg, "Id") \in {"CONTEXTJ", "CONTEXTO"})
        [] f = "vir"    -> o.vir    # Rule(W, "zwj", <<c, ZWJ>>, 1)
        [] f = "greek"  -> o.greek  # Rule(W, "keraia", <<KERAIA, c>>, 0)
